@@ -32,6 +32,8 @@ type HarnessCfg struct {
 	Solver        SolverKind
 	Seed          int64
 	SampleMaxLen  uint64 // longest input string materialised for cross-check samples
+	CrossSolver   bool   // re-discharge every obligation on z3 5.1.0 (thorough tier)
+	OpaquePkgs    []string
 }
 
 func defaultCfg(name string) *HarnessCfg {
@@ -110,7 +112,12 @@ func Explore(P *Program, cfg *HarnessCfg) (*ExploreResult, error) {
 				errs <- err
 				return
 			}
-			defer sol.Close()
+			if cfg.CrossSolver {
+				if m, err := NewSolver(Z3New, cfg.SolverTimeout); err == nil {
+					sol.mirror = m
+				}
+			}
+			defer func() { sol.Close() }()
 			for {
 				ex.mu.Lock()
 				for len(ex.queue) == 0 && ex.active > 0 && !ex.stopped {
@@ -127,10 +134,15 @@ func Explore(P *Program, cfg *HarnessCfg) (*ExploreResult, error) {
 				ex.mu.Unlock()
 
 				res := ex.runPath(sol, prefix)
-				if sol.dead {
-					// restart the solver once
+				if sol.dead || (sol.mirror != nil && sol.mirror.dead) {
+					// restart the solver(s)
 					sol.Close()
 					sol, _ = NewSolver(cfg.Solver, cfg.SolverTimeout)
+					if cfg.CrossSolver {
+						if m, err := NewSolver(Z3New, cfg.SolverTimeout); err == nil {
+							sol.mirror = m
+						}
+					}
 				}
 
 				ex.mu.Lock()
